@@ -96,6 +96,25 @@ pub fn exec(w: &[&str], obs: &mut Obs) -> Option<String> {
     }
 }
 
+/// replace sequence targets of scalar arrays by fixed-length tuples (deserialize_tuple takes a different
+/// path through the streaming deserializers: it has to fetch the closing token itself)
+fn tuplify(rng: &mut crate::common::Rng, ty: &Ty, node: Option<&Node>) -> Ty {
+    match (ty, node) {
+        (Ty::Seq(inner), Some(Node::Arr(vs))) if !vs.is_empty() && vs.len() <= 6 && vs.iter().all(|v| matches!(v, Node::Leaf(_))) && rng.chance(2, 3) => Ty::Tuple(vec![(**inner).clone(); vs.len()]),
+        (Ty::Opt(t), n) => Ty::Opt(Box::new(tuplify(rng, t, n))),
+        _ => ty.clone(),
+    }
+}
+fn tuplify_doc(rng: &mut crate::common::Rng, ty: &Ty, doc: &Doc) -> Ty {
+    match ty {
+        Ty::Struct(fs) => Ty::Struct(fs.iter().map(|(n, t)| {
+            let node = doc.fields.iter().find(|f| crate::tyseed::key_name(&f.key).as_deref() == Some(n.as_str())).map(|f| &f.val);
+            (n.clone(), tuplify(rng, t, node))
+        }).collect()),
+        _ => ty.clone(),
+    }
+}
+
 pub fn gen_de_fault(g: &mut Gen) {
     let n = g.budget(400, 8000);
     for _ in 0..n {
@@ -104,10 +123,12 @@ pub fn gen_de_fault(g: &mut Gen) {
         let step = *g.rng.pick(&[1usize, 2, 3, 5, 8]);
         let cap = *g.rng.pick(&[64usize, 128, 4096]);
         let ty = doc_ty(&mut g.rng, &doc, false);
+        let ty = tuplify_doc(&mut g.rng, &ty, &doc);
         let b = docgen::render_binary(&mut g.rng, &BinCfg::default(), &doc);
         if b.len() <= 200 { g.emit(format!("x-fde-bin {} {} {} {}", show_ty(&ty), cap, step, hex(&b))); }
         let doc = docgen::gen_doc(&mut g.rng, &DocCfg { max_fields: 4, ..DocCfg::save_style() });
         let ty = doc_ty(&mut g.rng, &doc, true);
+        let ty = tuplify_doc(&mut g.rng, &ty, &doc);
         let t = docgen::render_layout(&mut g.rng, &LayoutCfg { max_left_pad: 2, max_trailing: 2, ..LayoutCfg::reader_safe() }, &docgen::lexemes(&doc));
         if t.len() <= 200 { g.emit(format!("x-fde-text {} {} {} {}", show_ty(&ty), cap, step, hex(&t))); }
     }
@@ -115,6 +136,12 @@ pub fn gen_de_fault(g: &mut Gen) {
     for step in [1usize, 2, 3] {
         let d = [0x00u8, 0x20, 1, 0, 0x0c, 0, 1, 0, 0, 0, 3, 0, 4, 0, 0x07, 0x20, 1, 0, 0x0c, 0, 2, 0, 0, 0, 0x0e, 0x20, 1, 0, 0x0c, 0, 3, 0, 0, 0];
         g.emit(format!("x-fde-bin st(a:i64;b:i64;name:opt(i64)) 64 {} {}", step, hex(&d)));
+    }
+    for step in [1usize, 2, 3, 4, 5, 7] {
+        for txt in [&b"a={ 1 2 } b=3 c=4"[..], b"a = { 1 2 }\nb = 3\nc = 4\n", b"x=1 a={ 7 8 9  } b=3", b"a={1 2} b={ 3 4 } c=5"] {
+            g.emit(format!("x-fde-text st(a:tup(i64;i64);b:opt(i64);c:opt(i64)) 64 {} {}", step, hex(txt)));
+            g.emit(format!("x-fde-text st(a:seq(i64);b:opt(i64);c:opt(i64)) 64 {} {}", step, hex(txt)));
+        }
     }
     g.count("de-fault-every-read-call");
 }
